@@ -32,9 +32,12 @@ type vSink struct {
 	// values are arbitrary byte strings (brackets, quotes, commas, non-UTF-8, very long ...): they are interned byte-exactly,
 	// the line protocol carries the numbers; a value the export context shows that no caller sent gets a fresh number
 	intern map[string]int
+	imu    sync.Mutex
 }
 
 func (s *vSink) val(v string) int {
+	s.imu.Lock()
+	defer s.imu.Unlock()
 	if s.intern == nil {
 		s.intern = map[string]int{"": 0}
 	}
@@ -67,17 +70,6 @@ func (s *vSink) key(ctx context.Context) string {
 		parts = append(parts, s.vals(info.Metadata.Get(k)))
 	}
 	return strings.Join(parts, "/")
-}
-
-func vVals(vs []string) string {
-	if len(vs) == 0 {
-		return "-"
-	}
-	var out []string
-	for _, v := range vs {
-		out = append(out, fmt.Sprint(vStrID(v)))
-	}
-	return strings.Join(out, ".")
 }
 
 // vAuth: credentials of an incoming call; they must never show up on an export context
